@@ -1,5 +1,6 @@
 import RSocketModel.Props.C04
 import RSocketModel.Transport
+import RSocketModel.Gen.TcpStepFn
 /-!
 # C04 — the transports' receive loops around the parser
 
@@ -133,6 +134,24 @@ theorem c04_ws_failure_after_messages {β : Type} (parse : Bytes → List β) (p
     | fail => exact absurd rfl hm
     | binary b => simp only [List.cons_append, pump, msgQueueLoop_items_append, ih hr, List.flatMap_cons]
     | other => simp only [List.cons_append, pump, msgQueueLoop_items_append, ih hr, List.flatMap_cons]
+
+/-- what the model's loop does with one read, in the vocabulary of the compiled function -/
+def stepKind : Read → Gen.TcpStep
+  | .err => .transportError
+  | .eof => .endOfStream true
+  | .data c => if c = [] then .endOfStream true else .parses
+
+/-- **the loop's per-read decision is the source's**: `tcpLoop` treats each outcome of `read` the
+way `TransportTCP.next_frame_generator`, compiled from `rsocket/transports/tcp.py` on every run
+(`Gen/TcpStepFn.lean`), does — a failing read is a transport error, no bytes is the end of the
+stream (writer closed), and **any bytes at all are handed to the parser**, whether or not the end
+of the stream is already known (the case two seeded changes, C04d and C01k, got wrong) -/
+theorem c04_tcp_step_matches_source (r : Read) :
+    stepKind r = Gen.tcp_next (decide (r = .err)) (decide (r = .eof ∨ r = .data [])) := by
+  cases r with
+  | err => rfl
+  | eof => rfl
+  | data c => cases c <;> simp [stepKind, Gen.tcp_next]
 
 /-- non-vacuity: two frames, the second arriving in the same read as the end of the first and
 followed at once by the end of the stream -/
